@@ -31,7 +31,7 @@ func startServe(t *testing.T, bin string) string {
 		t.Fatal(err)
 	}
 	t.Cleanup(func() { _ = srv.Process.Kill(); _, _ = srv.Process.Wait() })
-	for i := 0; i < 200; i++ {
+	for i := 0; i < 3000; i++ { // up to a minute on a loaded machine
 		if r, err := http.Get("http://" + addr + "/basic/v1/status"); err == nil {
 			r.Body.Close()
 			return "http://" + addr + "/basic/v1"
